@@ -105,7 +105,7 @@ impl Property for C18 {
         match tier {
             Tier::Quick => Budget {
                 seconds: 20,
-                max_cases: 150_000,
+                max_cases: 400_000,
             },
             Tier::Thorough => Budget {
                 seconds: 300,
